@@ -334,6 +334,32 @@ func c18(c *core.Ctx) {
 				}
 				want := len(call.Call.Args)
 				c.Check(nProto >= want, key+":proto-edge", call.Pos(), fmt.Sprintf("primitive used only when all %d operands are protobuf messages", want), "the protobuf primitive is used although not all operands were shown to be protobuf messages")
+				// ... and when they all are, the primitive alone decides: no other return lies on that edge (a gate in
+				// front of the primitive — "same descriptor?" — refuses pairs the primitive copies, such as a generated
+				// message and a dynamic one of the same type)
+				other := token.NoPos
+				for _, r := range core.Returns(fn) {
+					k := 0
+					for _, ef := range core.DominatingFacts(r) {
+						if ex, ok := ef.Fact.X.(*ssa.Extract); ok && ef.Fact.Op == token.ILLEGAL && !ef.Fact.Neg {
+							if _, isTA := ex.Tuple.(*ssa.TypeAssert); isTA {
+								k++
+							}
+						}
+					}
+					if k < want || want == 0 {
+						continue
+					}
+					for _, v := range r.Results {
+						if !core.AllOrigins(v, func(o ssa.Value) bool {
+							cr, _, ok := core.CallResult(o)
+							return ok && cr == call
+						}) {
+							other = r.Pos()
+						}
+					}
+				}
+				c.Check(other == token.NoPos, key+":primitive-alone-decides", call.Pos(), "on the all-protobuf edge every return is the primitive's result", "on the edge where all operands are protobuf messages the adapter can return something other than the primitive's result (a gate of its own in front of the primitive): pairs the primitive copies — a generated and a dynamic message of one type — are refused")
 			}
 			// codec round trip
 			var marshal, unmarshal *ssa.Call
